@@ -77,8 +77,14 @@ pub mod pool_sdk {
     pub struct LockFlags { pub bits: u32 }
     impl LockFlags { pub fn read_only() -> (r: LockFlags) ensures r.bits == 0 { LockFlags { bits: 0 } } }
 
-    pub trait SystemApiError: Sized {}
-    impl SystemApiError for RuntimeError {}
+    /// radix-engine-interface `SystemApiError` (bound of `SystemApi<E>`), with the one fact this unit uses:
+    /// ASSUMED -- the system API and the vault / bucket / resource-manager blueprints never fail with a
+    /// *OneResourcePoolError* (those are raised by one_resource_pool_blueprint.rs only), so such an error
+    /// identifies a decision of the pool's own code.
+    pub trait SystemApiError: Sized { spec fn is_pool_error(&self) -> bool; }
+    impl SystemApiError for RuntimeError {
+        open spec fn is_pool_error(&self) -> bool { *self matches RuntimeError::ApplicationError(ApplicationError::OneResourcePoolError(_)) }
+    }
     /// a payload type that can be read from the pool's State field
     pub trait StatePayload<S>: Sized { spec fn content(&self) -> S; }
 
@@ -89,29 +95,29 @@ pub mod pool_sdk {
         spec fn state(&self) -> (Own, ResourceAddress);
 
         fn actor_open_field(&mut self, object_handle: ActorStateHandle, field: FieldIndex, flags: LockFlags) -> (r: Result<FieldHandle, E>)
-            ensures final(self).world() == old(self).world(), final(self).state() == old(self).state();
+            ensures final(self).world() == old(self).world(), final(self).state() == old(self).state(), r matches Err(e) ==> !e.is_pool_error();
         fn field_read_typed<S: StatePayload<(Own, ResourceAddress)>>(&mut self, handle: FieldHandle) -> (r: Result<S, E>)
-            ensures final(self).world() == old(self).world(), final(self).state() == old(self).state(),
+            ensures final(self).world() == old(self).world(), final(self).state() == old(self).state(), r matches Err(e) ==> !e.is_pool_error(),
                     r matches Ok(s) ==> s.content() == old(self).state();
         fn field_close(&mut self, handle: FieldHandle) -> (r: Result<(), E>)
-            ensures final(self).world() == old(self).world(), final(self).state() == old(self).state();
+            ensures final(self).world() == old(self).world(), final(self).state() == old(self).state(), r matches Err(e) ==> !e.is_pool_error();
     }
 
     impl Vault {
         #[verifier::external_body]
         pub fn amount<Y: SystemApi<E>, E: SystemApiError>(&self, api: &mut Y) -> (r: Result<Decimal, E>)
-            ensures final(api).world() == old(api).world(), final(api).state() == old(api).state(),
+            ensures final(api).world() == old(api).world(), final(api).state() == old(api).state(), r matches Err(e) ==> !e.is_pool_error(),
                     r matches Ok(a) ==> old(api).world().vaults.contains_key(self.0) && a == old(api).world().vaults[self.0].amount,
         { unimplemented!() }
         #[verifier::external_body]
         pub fn resource_address<Y: SystemApi<E>, E: SystemApiError>(&self, api: &mut Y) -> (r: Result<ResourceAddress, E>)
-            ensures final(api).world() == old(api).world(), final(api).state() == old(api).state(),
+            ensures final(api).world() == old(api).world(), final(api).state() == old(api).state(), r matches Err(e) ==> !e.is_pool_error(),
                     r matches Ok(a) ==> old(api).world().vaults.contains_key(self.0) && a == old(api).world().vaults[self.0].resource,
         { unimplemented!() }
         /// deposits the whole bucket (same resource required by the vault blueprint) and consumes it
         #[verifier::external_body]
         pub fn put<Y: SystemApi<E>, E: SystemApiError>(&mut self, bucket: Bucket, api: &mut Y) -> (r: Result<(), E>)
-            ensures *final(self) == *old(self), final(api).state() == old(api).state(),
+            ensures *final(self) == *old(self), final(api).state() == old(api).state(), r matches Err(e) ==> !e.is_pool_error(),
                     r is Ok ==> ({
                         let w = old(api).world();
                         &&& w.vaults.contains_key(old(self).0) && w.buckets.contains_key(bucket.0)
@@ -126,7 +132,7 @@ pub mod pool_sdk {
         /// withdraws exactly `amount` into a fresh bucket; fails unless 0 <= amount <= balance
         #[verifier::external_body]
         pub fn take<Y: SystemApi<E>, E: SystemApiError>(&mut self, amount: Decimal, api: &mut Y) -> (r: Result<Bucket, E>)
-            ensures *final(self) == *old(self), final(api).state() == old(api).state(),
+            ensures *final(self) == *old(self), final(api).state() == old(api).state(), r matches Err(e) ==> !e.is_pool_error(),
                     r matches Ok(b) ==> ({
                         let w = old(api).world();
                         &&& w.vaults.contains_key(old(self).0) && !w.buckets.contains_key(b.0)
@@ -141,24 +147,24 @@ pub mod pool_sdk {
     impl Bucket {
         #[verifier::external_body]
         pub fn amount<Y: SystemApi<E>, E: SystemApiError>(&self, api: &mut Y) -> (r: Result<Decimal, E>)
-            ensures final(api).world() == old(api).world(), final(api).state() == old(api).state(),
+            ensures final(api).world() == old(api).world(), final(api).state() == old(api).state(), r matches Err(e) ==> !e.is_pool_error(),
                     r matches Ok(a) ==> old(api).world().buckets.contains_key(self.0) && a == old(api).world().buckets[self.0].amount,
         { unimplemented!() }
         #[verifier::external_body]
         pub fn resource_address<Y: SystemApi<E>, E: SystemApiError>(&self, api: &mut Y) -> (r: Result<ResourceAddress, E>)
-            ensures final(api).world() == old(api).world(), final(api).state() == old(api).state(),
+            ensures final(api).world() == old(api).world(), final(api).state() == old(api).state(), r matches Err(e) ==> !e.is_pool_error(),
                     r matches Ok(a) ==> old(api).world().buckets.contains_key(self.0) && a == old(api).world().buckets[self.0].resource,
         { unimplemented!() }
         /// `Ok(self.amount(api)?.is_zero())`
         #[verifier::external_body]
         pub fn is_empty<Y: SystemApi<E>, E: SystemApiError>(&self, api: &mut Y) -> (r: Result<bool, E>)
-            ensures final(api).world() == old(api).world(), final(api).state() == old(api).state(),
+            ensures final(api).world() == old(api).world(), final(api).state() == old(api).state(), r matches Err(e) ==> !e.is_pool_error(),
                     r matches Ok(e) ==> old(api).world().buckets.contains_key(self.0) && e == (old(api).world().buckets[self.0].amount.v() == 0),
         { unimplemented!() }
         /// burns the whole bucket: the bucket disappears and the tracked supply of its resource drops by its amount
         #[verifier::external_body]
         pub fn burn<Y: SystemApi<E>, E: SystemApiError>(self, api: &mut Y) -> (r: Result<(), E>)
-            ensures final(api).state() == old(api).state(),
+            ensures final(api).state() == old(api).state(), r matches Err(e) ==> !e.is_pool_error(),
                     r is Ok ==> ({
                         let w = old(api).world();
                         &&& w.buckets.contains_key(self.0)
@@ -174,18 +180,18 @@ pub mod pool_sdk {
     impl ResourceManager {
         #[verifier::external_body]
         pub fn total_supply<Y: SystemApi<E>, E: SystemApiError>(&self, api: &mut Y) -> (r: Result<Option<Decimal>, E>)
-            ensures final(api).world() == old(api).world(), final(api).state() == old(api).state(),
+            ensures final(api).world() == old(api).world(), final(api).state() == old(api).state(), r matches Err(e) ==> !e.is_pool_error(),
                     r matches Ok(a) ==> a == old(api).world().supply[self.0],
         { unimplemented!() }
         #[verifier::external_body]
         pub fn resource_type<Y: SystemApi<E>, E: SystemApiError>(&self, api: &mut Y) -> (r: Result<ResourceType, E>)
-            ensures final(api).world() == old(api).world(), final(api).state() == old(api).state(),
+            ensures final(api).world() == old(api).world(), final(api).state() == old(api).state(), r matches Err(e) ==> !e.is_pool_error(),
                     r matches Ok(a) ==> a == old(api).world().rtype[self.0],
         { unimplemented!() }
         /// mints exactly `amount` into a fresh bucket and raises the tracked supply by it
         #[verifier::external_body]
         pub fn mint_fungible<Y: SystemApi<E>, E: SystemApiError>(&mut self, amount: Decimal, api: &mut Y) -> (r: Result<FungibleBucket, E>)
-            ensures *final(self) == *old(self), final(api).state() == old(api).state(),
+            ensures *final(self) == *old(self), final(api).state() == old(api).state(), r matches Err(e) ==> !e.is_pool_error(),
                     r matches Ok(b) ==> ({
                         let w = old(api).world();
                         &&& !w.buckets.contains_key(b.0.0)
@@ -206,7 +212,7 @@ pub mod pool_sdk {
     impl<E: SystemApiError> AndThenResourceType<E> for Result<ResourceAddress, E> {
         #[verifier::external_body]
         fn and_then_resource_type<Y: SystemApi<E>>(self, api: &mut Y) -> (r: Result<ResourceType, E>)
-            ensures final(api).world() == old(api).world(), final(api).state() == old(api).state(),
+            ensures final(api).world() == old(api).world(), final(api).state() == old(api).state(), r matches Err(e) ==> !e.is_pool_error(),
                     self matches Err(e) ==> r == Err::<ResourceType, E>(e),
                     self matches Ok(a) ==> (r matches Ok(t) ==> t == old(api).world().rtype[a]),
         { unimplemented!() }
@@ -216,7 +222,7 @@ pub mod pool_sdk {
         /// events do not touch the ledger
         #[verifier::external_body]
         pub fn emit_event<Y: SystemApi<E>, E: SystemApiError, T>(api: &mut Y, event: T) -> (r: Result<(), E>)
-            ensures final(api).world() == old(api).world(), final(api).state() == old(api).state(),
+            ensures final(api).world() == old(api).world(), final(api).state() == old(api).state(), r matches Err(e) ==> !e.is_pool_error(),
         { unimplemented!() }
     }
 }
